@@ -1,9 +1,8 @@
 CONSTANTS
   Dev = {}
   MaxReq = 2
-  RT = 1
-  DefRT = 2
-  IdleCfg = 0
+  TickMs = 10000
+  StConfs <- St_xfr
   RqCap = 8
   ChanCap = 8
   MaxFrames = 2
@@ -24,5 +23,6 @@ INVARIANT NoCross
 INVARIANT SlotTableSound
 INVARIANT NothingLost
 INVARIANT TimerArmed
+INVARIANT Configured
 INVARIANT MacroQuiescent
 CHECK_DEADLOCK FALSE
